@@ -22,7 +22,7 @@ void ft_arm_atexit(void);
 int ft_is_waiting(int id);
 int ft_oneshot(int (*cb)(int, int), int pre, int xp, int *seen_after);
 void ft_set_gate_fn(uintptr_t fn);
-int ft_gated_pair(int (*cb)(int, int), int who_x, int who_y, int pre_x, int pre_y, int xp_x, int xp_y, int first, int *out);
+int ft_gated_pair(int (*cb)(int, int), int who_x, int who_y, int pre_x, int pre_y, int xp_x, int xp_y, int first, int warm_x, int warm_y, int *out);
 void ft_set_callbacks(int (*on_idle)(int), int (*cb)(int, int));
 int count_tstates(void);
 int call_cb_from_here(int id, int arg, int kind);
@@ -141,23 +141,27 @@ int ft_oneshot(int (*cb)(int, int), int pre, int xp, int *seen_after)
    GIL), then they are let through one after the other in the requested order. */
 static void (*g_arm_gate)(void *, void *);
 void ft_set_gate_fn(uintptr_t fn) { g_arm_gate = (void (*)(void *, void *))fn; }
-typedef struct { int (*cb)(int, int); int who, pre, xp, seen_after, result; sem_t *arrived, *gate; } gated_t;
+typedef struct { int (*cb)(int, int); int who, pre, xp, warm, seen_after, result; sem_t *arrived, *gate; } gated_t;
 static void *gated_main(void *p)
 {
     gated_t *o = (gated_t *)p;
+    if (o->warm != 0) {          /* an ordinary callback first: the thread already has its thread state at the gate */
+        errno = 0;
+        if (o->xp) xp_cb(o->warm, o->pre); else o->cb(o->warm, o->pre);
+    }
     errno = o->pre;
     g_arm_gate(o->arrived, o->gate);
     o->result = o->xp ? xp_cb(o->who, o->pre) : o->cb(o->who, o->pre);
     o->seen_after = errno;
     return NULL;
 }
-int ft_gated_pair(int (*cb)(int, int), int who_x, int who_y, int pre_x, int pre_y, int xp_x, int xp_y, int first, int *out)
+int ft_gated_pair(int (*cb)(int, int), int who_x, int who_y, int pre_x, int pre_y, int xp_x, int xp_y, int first, int warm_x, int warm_y, int *out)
 {
     pthread_t tx, ty; sem_t arrived, gx, gy; gated_t x, y;
     if (g_arm_gate == NULL) return -1;
     sem_init(&arrived, 0, 0); sem_init(&gx, 0, 0); sem_init(&gy, 0, 0);
-    x.cb = cb; x.who = who_x; x.pre = pre_x; x.xp = xp_x; x.arrived = &arrived; x.gate = &gx; x.result = x.seen_after = -1;
-    y.cb = cb; y.who = who_y; y.pre = pre_y; y.xp = xp_y; y.arrived = &arrived; y.gate = &gy; y.result = y.seen_after = -1;
+    x.cb = cb; x.who = who_x; x.pre = pre_x; x.xp = xp_x; x.warm = warm_x; x.arrived = &arrived; x.gate = &gx; x.result = x.seen_after = -1;
+    y.cb = cb; y.who = who_y; y.pre = pre_y; y.xp = xp_y; y.warm = warm_y; y.arrived = &arrived; y.gate = &gy; y.result = y.seen_after = -1;
     pthread_create(&tx, NULL, gated_main, &x);
     sem_wait(&arrived);                       /* X is past the callback entry, not yet holding the GIL */
     pthread_create(&ty, NULL, gated_main, &y);
@@ -241,11 +245,11 @@ class Driver(object):
         shim = ctypes.PyDLL(_cffi_backend.__file__)
         self.lib.ft_set_gate_fn(ctypes.cast(shim.cffi_verif_arm_gate, ctypes.c_void_p).value)
 
-    def gated_pair(self, who_x, who_y, pre_x, pre_y, xp_x, xp_y, first):
+    def gated_pair(self, who_x, who_y, pre_x, pre_y, xp_x, xp_y, first, warm_x=0, warm_y=0):
         """two brand-new foreign threads enter the callback; both are held right before they take the GIL,
         then let through in the given order.  Returns (result_x, errno_after_x, result_y, errno_after_y)."""
         out4 = self.ffi.new('int[4]')
-        r = self.lib.ft_gated_pair(self.cb, who_x, who_y, pre_x, pre_y, xp_x, xp_y, first, out4)
+        r = self.lib.ft_gated_pair(self.cb, who_x, who_y, pre_x, pre_y, xp_x, xp_y, first, warm_x, warm_y, out4)
         if r != 0:
             raise HarnessError('gated pair helper returned %d' % r)
         return out4[0], out4[1], out4[2], out4[3]
